@@ -1,5 +1,5 @@
 """C02 -- enumeration yields each solution exactly once (structural clauses)."""
-from ..rules import branching, search
+from ..rules import branching, engine, model, optimize, search, shaving
 
 EXPLANATION = (
     'Static analysis of the enumeration machinery: typestate over the generators solve / solve_and_queue (one search per iteration; a solution is delivered exactly once and followed by exactly one backtrack; the loop ends iff no solution or no alternative), solve_one (vector only under PROBLEM_BOUND, None only after a failed backtrack on an inconsistent state, heuristic answers handed over unmodified), partition algebra and event masks of all 5 registered value heuristics from the symbolic pre-state [lo,hi], and the push/pop/init oracle of the choice-point stack. Decides these shapes for all problems; not the equality of multisets across strategies.'
@@ -11,3 +11,11 @@ def check(ctx, prog):
     search.rule_solve_one(ctx, prog, want=("R-SOLUTION", "R-HANDOVER"))
     branching.check_value_heuristics(ctx, prog)
     branching.check_choice_points(ctx, prog)
+    # 'exactly the satisfying assignments, for every shipped consistency algorithm': the engine's soundness clauses and shaving
+    engine.rule_queue_drain(ctx, prog)
+    engine.rule_writeback(ctx, prog, want=("R-EVENTS-EXACT", "R-WRITEBACK-MONO", "R-ANNOUNCE"))
+    engine.rule_wakeup(ctx, prog)
+    model.rule_trigger_join(ctx, prog)
+    optimize.rule_offset_primitives(ctx, prog)
+    shaving.rule_shave_bound(ctx, prog)
+    shaving.rule_shaving_loop(ctx, prog)
